@@ -9,7 +9,7 @@ from vf.xmodel import Schema, Rop, Bound, Outcome, build_api, build_loader
 
 SHARDS = {'quick': 16, 'thorough': 64}
 TIMEOUT = {'quick': 1200, 'thorough': 7200}
-MUST_HIT = ['QueryRef.select', 'QueryRef.navigate', 'QueryRef.subtype', 'QueryRef.two-hop',
+MUST_HIT = ['EarlierObject.rechecked', 'QueryRef.select', 'QueryRef.navigate', 'QueryRef.subtype', 'QueryRef.two-hop',
             'QueryRef.order_by-with-ties', 'QueryRef.set-valued-start', 'QueryRef.filter-covers-identifier', 'QueryRef.first-last', 'QueryRef.query-repeated',
             'QueryRef.attribute-assigned-between-queries']
 MUST_REACH = ['xtuml/meta.py:apply_query_operators', 'xtuml/meta.py:WhereEqual.__call__',
@@ -461,5 +461,6 @@ def run(ctx):
             ctx.count('states_reloaded')
         ctx.count('states')
         run_queries(ctx, rng, b, handles, sch, nq, state_key)
+        ctx.later('model-state', (lambda b=b: b.compare(queries=True)), 'model state (differences to its shadow)')
     for k, v in STATS.items():
         ctx.hit('QueryRef.' + k, v)
